@@ -141,6 +141,23 @@ func (x *Exec) call(fr *Frame, instr ssa.Instruction, c *ssa.CallCommon, st *Sta
 			}
 			return x.havocCall(key, resT, st, reach, pos)
 		}
+		// value of a named function type: contract `field pkg.TypeName`
+		if nt, ok := types.Unalias(c.Value.Type()).(*types.Named); ok && nt.Obj().Pkg() != nil {
+			key := shortPkg(nt.Obj().Pkg().Path()) + "." + nt.Obj().Name()
+			if fc := x.eng.cs.Funcs[key]; fc != nil {
+				fv := x.val(fr, c.Value)
+				names := []string{"self"}
+				sig := c.Signature()
+				for i := 0; i < sig.Params().Len(); i++ {
+					n := sig.Params().At(i).Name()
+					if n == "" || n == "_" {
+						n = fmt.Sprintf("p%d", i)
+					}
+					names = append(names, n)
+				}
+				return x.applyContract(fc, key, names, append([]Val{fv}, args...), sig.Results(), st, reach, pos)
+			}
+		}
 		return x.havocCall("dynamic call "+c.Value.Name(), resT, st, reach, pos)
 	}
 	if recvBound != nil {
@@ -555,13 +572,16 @@ func (x *Exec) appendOp(args []Val, resT types.Type, st *State, reach Term, pos 
 	na := x.sc.freshConst("apparr", "(Array Int "+es+")")
 	srcArr := sel(h, app("s_reg", s.S))
 	tArr := sel(h, app("s_reg", t.S))
-	roff := app("s_off", res)
-	// old elements
-	x.sc.assert(fmt.Sprintf("(forall ((i Int)) (! (=> (and (<= 0 i) (< i (s_len %s))) (= (select %s (+ %s i)) (select %s (+ (s_off %s) i)))) :pattern ((select %s (+ %s i)))))",
-		s.S, na, roff, srcArr, s.S, na, roff))
-	// appended elements
-	x.sc.assert(fmt.Sprintf("(forall ((i Int)) (! (=> (and (<= 0 i) (< i %s)) (= (select %s (+ %s (s_len %s) i)) (select %s (+ (s_off %s) i)))) :pattern ((select %s (+ %s (s_len %s) i)))))",
-		tlen, na, roff, s.S, tArr, t.S, na, roff, s.S))
+	_ = app("s_off", res)
+	// old elements keep their values (triggers on either slice's index term)
+	x.sc.assert(fmt.Sprintf("(forall ((i Int)) (! (=> (and (<= 0 i) (< i (s_len %s))) (= (select %s (sidx %s i)) (select %s (sidx %s i)))) :pattern ((sidx %s i)) :pattern ((sidx %s i))))",
+		s.S, na, res, srcArr, s.S, res, s.S))
+	// appended elements, triggered from the source index ...
+	x.sc.assert(fmt.Sprintf("(forall ((i Int)) (! (=> (and (<= 0 i) (< i %s)) (= (select %s (sidx %s (+ (s_len %s) i))) (select %s (sidx %s i)))) :pattern ((sidx %s i))))",
+		tlen, na, res, s.S, tArr, t.S, t.S))
+	// ... and from the result index
+	x.sc.assert(fmt.Sprintf("(forall ((k Int)) (! (=> (and (<= (s_len %s) k) (< k %s)) (= (select %s (sidx %s k)) (select %s (sidx %s (- k (s_len %s)))))) :pattern ((sidx %s k))))",
+		s.S, newLen, na, res, tArr, t.S, s.S, res))
 	// in-place case: everything outside the appended window is unchanged
 	x.sc.assert(implies(fits, fmt.Sprintf("(forall ((i Int)) (! (=> (or (< i (+ (s_off %s) (s_len %s))) (>= i (+ (s_off %s) %s))) (= (select %s i) (select %s i))) :pattern ((select %s i))))",
 		s.S, s.S, s.S, newLen, na, srcArr, na)))
